@@ -24,3 +24,8 @@ CLAIMED["C18"] = {
     "note": "Name/pattern alphabets finite (stated); re-exports/templates outside. Trusted: rsym + library model, z3, reference model. Bounded in K.",
 }
 NA.pop("C18", None)
+CLAIMED["C07"] = {
+    "text": "Bounded symbolic model checking of the real AdvancedAgenda (and the real Ord impl of Activation through the priority-queue model): every history of K operations (add_activation with ANY i32 salience and symbolic flags/groups, fire = get_next_activation + mark_rule_fired, set_focus, reset_fired_flags); obligations: the fired activation was pending, is in the focused group, is eligible, no eligible pending activation of that group has higher salience or equal salience and earlier creation, no-loop at most once between resets, at most one rule per activation group, focus only leaves a group without eligible pending activations.",
+    "note": "Agenda clause only: termination of the fire_all entry points is NOT covered. BinaryHeap modelled as a priority queue (distinct creation instants => unique maximum). Trusted: rsym + library model, z3. Bounded in K.",
+}
+NA.pop("C07", None)
